@@ -9,7 +9,8 @@ import shutil
 import subprocess
 
 VERIF = os.path.dirname(os.path.dirname(os.path.abspath(__file__)))
-TWINS = {"free_space": ("free_space_twin.rs", "verif_twin_free_space", {"TWIN_DEPTH": "5"})}
+TWINS = {"free_space": ("free_space_twin.rs", "verif_twin_free_space", {"TWIN_DEPTH": "5"}),
+         "cache": ("cache_twin.rs", "verif_twin_cache", {"TWIN_SEEDS": "40", "TWIN_STEPS": "60"})}
 
 
 def run(unit, repo, timeout=600):
